@@ -46,8 +46,20 @@ CLAIMED = {
             'thorough; the loop body is identical for every step), through GHE.simulate including unit factors; corollaries; hourly branch '
             'axis/load consistency for every horizon 1..360 and three call histories.',
             'g and ln uninterpreted; floats as reals; numpy replaced by exact list facade', '3/C09', None),
+    'C11': ('Decidable part: joined axis strictly increasing, long-time points reproduced with radius-corrected values, short-time points kept '
+            'exactly below the first long-time point (1..8 symbolic short-time points against the Eskilson axis and a symbolic axis); '
+            'interpolation at a stored height returns the stored curve and radius for 1..5 symbolic stored heights (native replay with the '
+            'real scipy); radius correction identity/additive/monotone; grab_g_function glue.',
+            'NOT claimed: FLS/UHTR 1e-4 anchor, 20 % MIFT clause (pygfunction numerics). interp1d replaced by its node contract; ln '
+            'uninterpreted with product rule + monotonicity instances; stored heights >= 0.01 m apart; no exact tie of a short-time point '
+            'with the first long-time point.', '3/C11', None),
     'C12': ('Same runs as C01 on the live object state the summary is built from (count, height tag of the stored temperatures, search-log '
             'rows) + the real get_summary_object on a light design object with symbolic values.', SEARCH_NOTE, '3/C12', None),
+    'C15': ('Geometry part for all radii in mm-scale ranges: equal-volume radii reproduce fluid and pipe-wall volume (independent '
+            'cross-section formulas for double-U and coaxial), legs of the equivalent tube inside the possibly enlarged borehole and not '
+            'overlapping, original borehole/grout not aliased, SingleUTube converts to itself.',
+            'NOT claimed: both resistance-matching root solves (Gnielinski/Colebrook, multipole: not encodable). sqrt with defining '
+            'equation, ln uninterpreted with product rule.', '3/C15', None),
     'C16': ('For each concrete polygon (12 hand-made incl. the demo outline + 48 seeded lattice polygons quick; all 3-4 vertex lattice polygons '
             'thorough) the classification is proved for every real test point and tolerance against an independent crossing-number oracle '
             'with the opposite half-open convention.',
@@ -57,6 +69,11 @@ CLAIMED = {
             'row builders proved to echo symbolic loads/coordinates/g-rows. Bounded only by the stated ranges.',
             'floats modelled as reals; grab_g_function stubbed by symbolic arrays (C11 covers it); quick tier forks the '
             'symbolic load position over 24 positions, thorough over all 8760.', '3/C19', None),
+    'C20': ('For all flow rates, densities and borehole counts 1..400: per-borehole and system specifications give the same per-borehole '
+            'mass flow in both search classes and in BaseGHE.__init__ (the value handed to the borehole model), = v rho/1000; m x N = '
+            'V rho/1000 for system flow; unknown flow type refused; (N v)/N in the float relative-error model.',
+            'downstream resistance/temperatures equal by congruence (functions of the per-borehole mass flow only), not encoded; '
+            'flow-type strings: 9 concrete spellings', '3/C20', None),
 }
 
 NOT_YET = {}
